@@ -460,6 +460,31 @@ static void mode_extent(fm_t* m, uint64_t* nontrivial)
                 }
             }
         }
+        /* state-dependent accesses: from the canonical (or zero) header put field A into a small state, then drive field B
+         * through max -> 0 -> 1 on the exact-extent buffer */
+        for (uint32_t i = 0; i < f->nfields; i++) {
+            for (uint32_t ai = 0; ai < 4; ai++) {
+                for (uint32_t j2 = 0; j2 < 2 * f->nfields; j2++) {
+                    uint32_t j = j2 / 2; int bpath = (int)(j2 & 1);
+                    if (i == j || (bpath == P_DEDICATED && !f->fields[j].dget)) continue;
+                    if (f->image) memcpy(buf, f->image, n < f->spec_bytes ? n : f->spec_bytes); else memset(buf, 0, n);
+                    static const uint32_t seqv[4] = { 0, 2, 0, 1 };
+                    for (uint32_t st = 0; st < 4; st++) {
+                        const vp_field_t* fld = &f->fields[st == 0 ? i : j];
+                        uint64_t v = st == 0 ? vp_value_class(&c->rng, ai, fld->width) : vp_value_class(&c->rng, seqv[st], fld->width);
+                        int path = st == 0 ? P_GENERIC : bpath;
+                        ext_call_t e = { m, fld, path, 1, buf, v, 0 };
+                        vp_curop("extent-state-seq", f->id, fld->name, path);
+                        vp_call(c);
+                        int sig = vp_try(ext_thunk, &e);
+                        c->evals++;
+                        if (sig && vp_viol(c, "extent", f->id, fld->name, path_names[path], "set-outside-header-in-state", 0)) {
+                            o_s(c, "{\"signal\":"); o_u(c, (uint64_t)sig); o_s(c, ",\"placement\":\""); o_s(c, pname); o_s(c, "\",\"state_field\":\""); o_s(c, f->fields[i].name); o_s(c, "\"}"); o_end(c);
+                        }
+                    }
+                }
+            }
+        }
         if (heap) vp_heap_free(buf); else vp_guard_free(buf, n);
     }
 }
@@ -511,15 +536,23 @@ static void init_case(fm_t* m, uint32_t prior, int legacy, uint32_t arg, uint64_
 static void mode_init(fm_t* m, uint64_t* nontrivial)
 {
     const vp_format_t* f = m->f;
-    if (f->init && f->image) {
-        for (uint32_t prior = 0; prior < 3; prior++) init_case(m, prior, 0, 0, nontrivial);
-        for (uint64_t r = 0; r < g_reps; r++) init_case(m, 3, 0, 0, nontrivial);
-    }
-    if (f->linit && f->image) {
-        uint32_t nargs = f->linit_argfield ? 256 : 1;
-        for (uint32_t arg = 0; arg < nargs; arg++) {
-            for (uint32_t prior = 0; prior < 3; prior++) init_case(m, prior, 1, arg, nontrivial);
-            for (uint64_t r = 0; r < 1 + g_reps / 16; r++) init_case(m, 3, 1, arg, nontrivial);
+    /* which call is the first one of the process matters for lazily built state: VP_LEGACYFIRST runs the legacy
+     * initialiser before the current one, VP_FIRSTARG rotates the order of its argument values */
+    uint32_t first = (uint32_t)vp_cfg_u64("FIRSTARG", 0);
+    int legacy_first = (int)vp_cfg_u64("LEGACYFIRST", 0);
+    for (int pass = 0; pass < 2; pass++) {
+        int do_legacy = (pass == 0) == (legacy_first != 0);
+        if (!do_legacy && f->init && f->image) {
+            for (uint32_t prior = 0; prior < 3; prior++) init_case(m, prior, 0, 0, nontrivial);
+            for (uint64_t r = 0; r < g_reps; r++) init_case(m, 3, 0, 0, nontrivial);
+        }
+        if (do_legacy && f->linit && f->image) {
+            uint32_t nargs = f->linit_argfield ? 256 : 1;
+            for (uint32_t a = 0; a < nargs; a++) {
+                uint32_t arg = (a + first) % nargs;
+                for (uint32_t prior = 0; prior < 3; prior++) init_case(m, prior, 1, arg, nontrivial);
+                for (uint64_t r = 0; r < 1 + g_reps / 16; r++) init_case(m, 3, 1, arg, nontrivial);
+            }
         }
     }
 }
@@ -616,6 +649,15 @@ static void mode_badargs(fm_t* m, uint64_t* nontrivial)
     ADD(0x7fffffffu, "int-max"); ADD(0xffffffffu, "minus-one"); ADD(0x80000000u, "int-min");
     for (uint32_t k = 0; k < 16; k++) { uint32_t r = (uint32_t)vp_rng_next(&c->rng); ADD(r | (max <= 0xff ? 0x100u : 0x10000u), "random"); }
 #undef ADD
+    /* identifiers that wrap to a valid index when multiplied by a small element size modulo 2^32: ceil(m * 2^32 / d) + k */
+    static uint32_t wrapids[2048]; uint32_t nwrap = 0;
+    {
+        static const uint32_t divs[] = { 2, 3, 4, 5, 6, 8, 12, 16, 24 };
+        for (uint32_t di = 0; di < 9; di++) for (uint32_t mm = 1; mm < divs[di]; mm++) {
+            uint64_t base = (((uint64_t)mm << 32) + divs[di] - 1) / divs[di];
+            for (uint32_t k = 0; k < max && k < 40 && nwrap < 2048; k++) { uint64_t v = base + k; if (v >= max && v <= 0xffffffffull) wrapids[nwrap++] = (uint32_t)v; }
+        }
+    }
     for (uint32_t bc = 0; bc < 3; bc++) {
         if (bc == 0) memset(hdr, 0xff, n); else vp_rng_fill(&c->rng, hdr, n);
         for (uint32_t i = 0; i < nid; i++) {
@@ -641,7 +683,31 @@ static void mode_badargs(fm_t* m, uint64_t* nontrivial)
             }
         }
     }
-    /* null PDU through every entry point */
+    memset(hdr, 0xff, n);
+    for (uint32_t i = 0; i < nwrap; i++) {
+        fm_load(m, hdr, n);
+        ba_call_t e = { f, 0, 0, wrapids[i], 0, PDU(m), 0, 0, 0 };
+        ba_run(m, &e, "invalid-id", "wraps-modulo-2^32", 0, 0, nontrivial);
+        ba_call_t w = { f, 0, 1, wrapids[i], 0, PDU(m), 0, 0, 0 };
+        ba_run(m, &w, "invalid-id", "wraps-modulo-2^32", 0, 0, nontrivial);
+    }
+    /* null PDU through every entry point - once before and once after the same entry points have been used with valid
+     * arguments (a guard that is only skipped once some state has been built shows in the second round) */
+    for (int round = 0; round < 2; round++) {
+    if (round == 1) {
+        vp_rng_fill(&c->rng, hdr, n); fm_load(m, hdr, n);
+        if (f->init && f->image) { memcpy(SH(m), f->image, n); vp_call(c); f->init(PDU(m)); fm_check(m, "badargs", "init", "valid-before-null", n, 0, 0); }
+        if (f->linit && f->image) { memcpy(SH(m), f->image, n); if (f->linit_argfield) { const vp_field_t* af = &f->fields[f->linit_argfield - 1]; bf_set(SH(m), af->pos, af->width, 1); } vp_call(c); f->linit(PDU(m), 1); fm_check(m, "badargs", "legacy-init", "valid-before-null", n, 0, 0); }
+        for (uint32_t fi = 0; fi < f->nfields; fi++) {
+            const vp_field_t* fld = &f->fields[fi];
+            uint64_t v = vp_rng_next(&c->rng);
+            bf_set(SH(m), fld->pos, fld->width, v & bf_mask(fld->width));
+            do_set(m, fld, fld->dset ? P_DEDICATED : P_GENERIC, v);
+            (void)do_get(m, fld, fld->dget ? P_DEDICATED : P_GENERIC);
+            (void)do_get(m, fld, P_GENERIC);
+        }
+        fm_check(m, "badargs", "accessors", "valid-before-null", n, 0, 0);
+    }
     vp_rng_fill(&c->rng, hdr, n); fm_load(m, hdr, n);
     for (uint32_t fi = 0; fi < f->nfields; fi++) {
         const vp_field_t* fld = &f->fields[fi];
@@ -695,9 +761,10 @@ static void mode_badargs(fm_t* m, uint64_t* nontrivial)
             }
         }
     }
-    if (f->init) { ba_call_t e = { f, 0, 4, 0, 0, 0, 0, 0, 0 }; ba_run(m, &e, "null-pdu", "-", 0, 0, nontrivial); }
+    if (f->init) { ba_call_t e = { f, 0, 4, 0, 0, 0, 0, 0, 0 }; ba_run(m, &e, round ? "null-pdu-after-valid-use" : "null-pdu", "-", 0, 0, nontrivial); }
     if (f->linit) {
-        ba_call_t e = { f, 0, 7, 0, 1, 0, 0, 0, 0 }; ba_run(m, &e, "null-pdu", "-", 1, EINVAL_RC, nontrivial);
+        ba_call_t e = { f, 0, 7, 0, 1, 0, 0, 0, 0 }; ba_run(m, &e, round ? "null-pdu-after-valid-use" : "null-pdu", "-", 1, EINVAL_RC, nontrivial);
+    }
     }
 }
 
@@ -874,6 +941,53 @@ static void mode_views(fm_t* m, fm_t* m2, const char* filter, uint64_t* nontrivi
         if (seen_nonzero) (*nontrivial)++;
     }
     m->f = 0; m2->f = 0;
+}
+
+/* ================================================================== mode: direct (C05/C12: direct-call sequences) */
+static void mode_direct(fm_t* m, uint64_t* nontrivial)
+{
+    const vp_format_t* f = m->f;
+    vp_ctx_t* c = m->c;
+    size_t n = hdr_len(f);
+    static uint64_t vals[256], out[768];
+    uint8_t hdr[MAXHDR], alt[MAXHDR], model[MAXHDR];
+    if (!f->seq || f->nseq_steps > 256) return;
+    for (uint64_t r = 0; r < 4 + g_reps / 4; r++) {
+        make_buffer(&c->rng, r < 4 ? (uint32_t)r : BC_RANDOM, hdr, n, 0);
+        vp_rng_fill(&c->rng, alt, n);
+        if (r == 1) memset(alt, 0, n);
+        for (uint32_t i = 0; i < f->nseq_steps; i++) vals[i] = vp_value_class(&c->rng, (uint32_t)(r + i), f->fields[f->seq_field[i]].width);
+        fm_load(m, hdr, n);
+        memcpy(model, hdr, n);
+        vp_curop("direct-seq", f->id, "", r);
+        vp_call(c);
+        uint32_t k = f->seq(PDU(m), alt, vals, out);
+        memcpy(SH(m), alt, n);                                  /* every step ends with header := alt */
+        uint32_t o = 0;
+        for (uint32_t i = 0; i < f->nseq_steps && o + 3 <= k; i++) {
+            const vp_field_t* fld = &f->fields[f->seq_field[i]];
+            int legacy_oob = (f->seq_path[i] == 2 && fld->id >= f->max_id);
+            uint64_t e1 = bf_get(model, fld->pos, fld->width);
+            bf_set(model, fld->pos, fld->width, vals[i] & bf_mask(fld->width));
+            uint64_t e2 = bf_get(model, fld->pos, fld->width);
+            memcpy(model, alt, n);
+            uint64_t e3 = bf_get(model, fld->pos, fld->width);
+            if (legacy_oob) { o += 3; continue; }
+            uint64_t e[3] = { e1, e2, e3 };
+            static const char* const which[3] = { "first-read", "read-after-write", "read-after-buffer-replaced" };
+            for (int j = 0; j < 3; j++) {
+                c->evals++;
+                vp_tr_u64(c, out[o + j]);
+                if (out[o + j] != e[j] && vp_viol(c, "direct", f->id, fld->name, path_names[f->seq_path[i]], which[j], 0)) {
+                    o_s(c, "{\"expected\":\""); o_x(c, e[j]); o_s(c, "\",\"got\":\""); o_x(c, out[o + j]); o_s(c, "\",\"written\":\""); o_x(c, vals[i]);
+                    o_s(c, "\",\"note\":\"same getter called three times in one function with the buffer changed in between\"}"); o_end(c);
+                }
+            }
+            o += 3;
+        }
+        fm_check(m, "direct", "sequence", "final-bytes", n, 0, 0);
+        (*nontrivial)++;
+    }
 }
 
 /* ================================================================== mode: history (C05) */
@@ -1075,6 +1189,40 @@ static void mode_history(vp_ctx_t* c, const char* filter, uint64_t* nontrivial)
         }
     }
     vp_stat(c, "history.commutation_pairs", pairs);
+
+    /* state-dependent effects: from the initialised (or zero) header, put field A into a small state, then drive field B
+     * through max -> 0 -> 1; every step is judged by the whole-arena diff (a setter that touches something else only in a
+     * particular state of another field shows up here) */
+    uint64_t statesteps = 0;
+    for (uint32_t fx = 0; fx < vp_nformats; fx++) {
+        const vp_format_t* f = vp_formats[fx];
+        if (filter && strcmp(filter, "all") != 0 && strcmp(filter, f->id) != 0) continue;
+        size_t n = hdr_len(f);
+        slot[0].f = f;
+        for (uint32_t i = 0; i < f->nfields; i++) {
+            static const uint32_t avals[] = { 0, 1, 2, 3 };          /* value classes zero, one, max, msb */
+            for (uint32_t ai = 0; ai < 4; ai++) {
+                for (uint32_t j2 = 0; j2 < 2 * f->nfields; j2++) {
+                    uint32_t j = j2 / 2; int bpath = (int)(j2 & 1);
+                    if (i == j || (bpath == P_DEDICATED && !f->fields[j].dget)) continue;
+                    uint8_t hdr[MAXHDR];
+                    if (f->image) memcpy(hdr, f->image, n); else memset(hdr, 0, n);
+                    fm_load(&slot[0], hdr, n);
+                    hop_t op; memset(&op, 0, sizeof op);
+                    op.op = 1; op.fi = (uint16_t)i; op.path = P_GENERIC; op.v = vp_value_class(&c->rng, avals[ai], f->fields[i].width);
+                    h_apply(&slot[0], &op);
+                    static const uint32_t bvals[] = { 2, 0, 1 };
+                    for (uint32_t bi = 0; bi < 3; bi++) {
+                        op.fi = (uint16_t)j; op.v = vp_value_class(&c->rng, bvals[bi], f->fields[j].width);
+                        op.path = (uint8_t)bpath;
+                        h_apply(&slot[0], &op);
+                        statesteps++;
+                    }
+                }
+            }
+        }
+    }
+    vp_stat(c, "history.state_pair_steps", statesteps);
 }
 
 /* ================================================================== driver */
@@ -1134,6 +1282,7 @@ int main(void)
             else if (strcmp(mode, "init") == 0) mode_init(&m, &nontrivial);
             else if (strcmp(mode, "badargs") == 0) mode_badargs(&m, &nontrivial);
             else if (strcmp(mode, "legacy") == 0) mode_legacy(&m, &m2, &nontrivial);
+            else if (strcmp(mode, "direct") == 0) mode_direct(&m, &nontrivial);
             else { o_s(c, "ERR|unknown mode"); o_end(c); return 2; }
             vp_stat2(c, "evals", f->id, c->evals - e0);
             vp_stat2(c, "nontrivial", f->id, nontrivial - nt0);
